@@ -1,0 +1,24 @@
+//go:build verif
+
+package webtransport
+
+import (
+	"io"
+
+	"github.com/karagenc/socket.io-go/engine.io/parser"
+)
+
+// VerifSend writes one packet in the WebTransport framing (length prefix + body).
+func VerifSend(w io.Writer, packet *parser.Packet) error { return send(w, packet) }
+
+// VerifNextPacket reads one frame the way the client transport does (no read limit).
+func VerifNextPacket(r io.Reader) (*parser.Packet, error) { return nextPacket(r) }
+
+// VerifNextPacketLimited reads one frame the way the server transport does: through the
+// limited reader built from the configured MaxBufferSize.
+func VerifNextPacketLimited(r io.Reader, limit int64) (*parser.Packet, error) {
+	return nextPacket(newLimitedReader(r, limit))
+}
+
+// VerifLimitedReader exposes the limited reader itself.
+func VerifLimitedReader(r io.Reader, limit int64) io.Reader { return newLimitedReader(r, limit) }
